@@ -10,6 +10,7 @@
 #include <cstdio>
 #include <string>
 #include <unordered_map>
+#include <unordered_set>
 #include <utility>
 #include <new>
 
@@ -17,6 +18,7 @@ namespace verif {
 
 struct Registry {
 	std::unordered_map<const void *, uint64_t> live_obj;           // address -> serial
+	std::unordered_set<const void *> unclaimed;                    // objects whose destruction nobody owes any more (see disclaim())
 	std::unordered_map<void *, size_t> live_blk;                   // block -> size
 	std::unordered_map<void *, int> blk_owner;                     // block -> id of the allocator instance that handed it out
 	uint64_t serial = 0, constructed = 0, destroyed = 0, allocs = 0, frees = 0, default_constructed = 0;
@@ -29,7 +31,7 @@ struct Registry {
 	}
 	void reset() {
 		for(auto &kv : live_blk) ::free(kv.first);
-		live_blk.clear(); blk_owner.clear(); live_obj.clear(); error.clear();
+		live_blk.clear(); blk_owner.clear(); live_obj.clear(); unclaimed.clear(); error.clear();
 		serial = constructed = destroyed = allocs = frees = default_constructed = copies = moves = 0;
 		fail_alloc_at = 0;
 	}
@@ -45,6 +47,7 @@ struct Tracked {
 	void born() {
 		auto &r = reg();
 		if(r.live_obj.count(this)) r.err("construction over a live object at %p", this);
+		r.unclaimed.erase(this);
 		r.live_obj[this] = ++r.serial; r.constructed++;
 	}
 	bool alive(const char *what) const {
@@ -80,7 +83,10 @@ struct Tracked {
 	~Tracked() {
 		auto &r = reg();
 		auto it = r.live_obj.find(this);
-		if(it == r.live_obj.end()) { r.err("destruction of a non-live object at %p", this); return; }
+		if(it == r.live_obj.end()) {
+			if(r.unclaimed.erase(this)) { chk = 0xDEADDEAD; return; }       // a disclaimed object may be destroyed by whoever holds it, once, or never
+			r.err("destruction of a non-live object at %p", this); return;
+		}
 		r.live_obj.erase(it); r.destroyed++;
 		chk = 0xDEADDEAD;
 	}
@@ -104,6 +110,10 @@ struct TrackedCO : Tracked {
 
 // Serial number given to a Tracked object when it was constructed (0: not alive). An operation that the standard type specifies as
 // "destroy the old value, construct a new one" (emplace) must leave an object whose serial is newer than the call.
+// The owner gave the object up in a way that leaves open who destroys it and when (rcu_radixtree::erase only clears the presence bit:
+// the value may be destroyed by the caller after a grace period, by the tree when the slot is used again or when the tree dies, or
+// not at all). From here on the object is not counted as alive, may not be read, and may be destroyed at most once or constructed over.
+inline void disclaim(const Tracked *t) { auto &r = reg(); if(r.live_obj.erase(t)) r.unclaimed.insert(t); else r.err("disclaim of a non-live object at %p", t); }
 inline uint64_t birth_of(const Tracked *t) { auto &r = reg(); auto it = r.live_obj.find(t); return it == r.live_obj.end() ? 0 : it->second; }
 inline uint64_t birth_of(const int *) { return ~uint64_t(0); }
 inline int payload(int x) { return x; }
